@@ -283,6 +283,7 @@ let rec p_value (v : value) =
 (* ------------------------------------------------------------------ cases *)
 let ic = ref false
 let want_known = ref false
+let want_spec = ref false
 let known_extra = ref ""
 
 let str_of_ascii (s : string) : str =
@@ -513,7 +514,35 @@ let run_case (x : sx) : unit =
               | Err _ -> add " (validate ?)"
             end;
             add !known_extra;
-            known_extra := ""
+            known_extra := "";
+            if !want_spec then begin
+              (* model-only extra: the verdict of the reference semantics (Model/Spec.v) per document *)
+              (* classes of known deviations of the crate from the reference, as (k (0 ...)) *)
+              let sk = spec_known o y in
+              if not !want_known then begin
+                add " (k (0";
+                List.iter (fun c -> add (Printf.sprintf " %d" (int_of_n c))) sk;
+                (if known_d10 r.r_det then add " 10");
+                (let raw =
+                   match untag y with
+                   | YMap kv ->
+                       (match List.find_opt (fun (k, _) -> k = YStr (str_of_ascii "detection")) kv with
+                        | Some (_, d) ->
+                            (match untag d with
+                             | YMap dkv -> List.filter_map (fun (k, v) -> match untag k with YStr s -> Some (s, v) | _ -> None) dkv
+                             | _ -> [])
+                        | None -> [])
+                   | _ -> [] in
+                 if known_d24 raw r.r_det then add " 24");
+                add "))"
+              end;
+              add " (sp ";
+              if docs = [] then add "e";
+              List.iter (fun kv ->
+                  match sem_rule o !ic y (obj_find kv) with
+                  | Some T -> add "t" | Some F -> add "f" | Some M -> add "m" | None -> add "?") docs;
+              add ")"
+            end
       end;
       add ")"
   | L [A _; id; A "skip"] | L [id; A "skip"] -> add "("; add (atom id); add " skip)"
@@ -527,7 +556,7 @@ let case_id (x : sx) : string =
   | _ -> "?"
 
 let () =
-  Array.iter (fun a -> if a = "--ic" then ic := true; if a = "--known" then want_known := true) Sys.argv;
+  Array.iter (fun a -> if a = "--ic" then ic := true; if a = "--known" then want_known := true; if a = "--spec" then want_spec := true) Sys.argv;
   let out = stdout in
   (try
      while true do
